@@ -421,8 +421,40 @@ fn thread_main(slot: usize, t: Value, regions: std::collections::HashMap<String,
     if SHARED.load(Ordering::Relaxed) != 0 && slot < MAXSLOTS {
         unsafe { slot_ptr(slot, 3).write_volatile(tid) };
     }
-    if mode == "heartbeat" {
-        tx.send((slot, rep)).unwrap();
+    // "vfork": the thread sits in vfork(): it sleeps in the kernel, not interruptibly, until its child execs or exits.  Without
+    // "vfork_ms" the child only pauses (the thread never comes back); with it the child exits after that many milliseconds and
+    // the thread goes on as a heartbeat thread.
+    let mut reported = false;
+    if mode == "vfork" {
+        let ms = t["vfork_ms"].as_u64();
+        tx.send((slot, rep.clone())).unwrap();
+        reported = true;
+        unsafe {
+            #[allow(deprecated)]
+            let r = libc::vfork();
+            if r == 0 {
+                libc::prctl(libc::PR_SET_PDEATHSIG, libc::SIGKILL);
+                if let Some(ms) = ms {
+                    libc::usleep((ms * 1000) as u32);
+                    libc::_exit(0);
+                }
+                loop {
+                    libc::pause();
+                }
+            }
+            if ms.is_none() {
+                loop {
+                    libc::pause();
+                }
+            }
+            let mut st = 0;
+            libc::waitpid(r, &mut st, 0);
+        }
+    }
+    if mode == "heartbeat" || mode == "vfork" {
+        if !reported {
+            tx.send((slot, rep)).unwrap();
+        }
         loop {
             unsafe {
                 if SHARED.load(Ordering::Relaxed) != 0 {
@@ -433,23 +465,6 @@ fn thread_main(slot: usize, t: Value, regions: std::collections::HashMap<String,
                     }
                 }
                 libc::usleep(200);
-            }
-        }
-    }
-    if mode == "vfork" {
-        // the thread sits in vfork(): it sleeps in the kernel, not interruptibly, until its child (which only pauses) execs or exits
-        tx.send((slot, rep)).unwrap();
-        unsafe {
-            #[allow(deprecated)]
-            let r = libc::vfork();
-            if r == 0 {
-                libc::prctl(libc::PR_SET_PDEATHSIG, libc::SIGKILL);
-                loop {
-                    libc::pause();
-                }
-            }
-            loop {
-                libc::pause();
             }
         }
     }
